@@ -1,4 +1,5 @@
 import GeoVerif.Gen.SrcPip
+import GeoVerif.Gen.SrcMember
 import GeoVerif.Props.C01
 /-!
 # Source tie for `GeoPolygon._point_in_polygon` (`structures.py`)
@@ -50,6 +51,54 @@ theorem pointInPolygon_eq (p : Pt) (ring : List Pt) (b : Bool) :
   | nil => rfl
   | cons v vs =>
     simp only [Src.Pip.pointInPolygon, Py.getIdx, loop_eq, pointInRing, ringEdges, List.drop_succ_cons, List.drop_zero]
+
+/-- the two-argument instance (what `contains_coordinate` calls): `include_boundary` at its default `False` -/
+theorem pointInPolygonDefault_eq (p : Pt) (ring : List Pt) :
+    Src.Pip.pointInPolygonDefault p ring = Src.Pip.pointInPolygon p ring false := by
+  have h : ∀ (es : List Edge) (ins : Bool),
+      Src.Pip.pointInPolygonDefault.loop1 p ring false p.1 p.2 es ins =
+        Src.Pip.pointInPolygon.loop1 p ring false p.1 p.2 es ins := by
+    intro es
+    induction es with
+    | nil => intro ins; rfl
+    | cons e es ih =>
+      intro ins
+      unfold Src.Pip.pointInPolygonDefault.loop1 Src.Pip.pointInPolygon.loop1
+      simp only [ih]
+  simp only [Src.Pip.pointInPolygonDefault, Src.Pip.pointInPolygon, h]
+
+/-- **`GeoBox.contains_coordinate`** of the source is the model's `boxContains`, whatever `coord in hole` answers -/
+theorem boxContainsCoordinate_eq (hc : List Pt → Pt → Bool) (nw se : Pt) (outline : List Pt) (holes : List (List Pt))
+    (bnd : Rat × Rat × Rat × Rat) (p : Pt) :
+    Src.Member.boxContainsCoordinate hc nw se outline holes bnd () p =
+      ((decide (nw.1 ≤ p.1) && decide (p.1 ≤ se.1) && decide (se.2 ≤ p.2) && decide (p.2 ≤ nw.2)) &&
+        !(holes.any fun h => hc h p)) := by
+  simp only [Src.Member.boxContainsCoordinate]
+  rw [Bool.eq_iff_iff]
+  cases holes.any (fun h => hc h p) <;> simp [Bool.and_assoc]
+
+/-- … and with `coord in hole` read as the polygon test of the hole, it is `boxContains` -/
+theorem boxContainsCoordinate_model (nw se : Pt) (outline : List Pt) (holes : List (List Pt))
+    (bnd : Rat × Rat × Rat × Rat) (p : Pt) :
+    Src.Member.boxContainsCoordinate ringContains nw se outline holes bnd () p = boxContains nw se holes p := by
+  rw [boxContainsCoordinate_eq]; rfl
+
+/-- **`GeoPolygon.contains_coordinate`** of the source is the model's `polyContains`, for a non-empty outline whose cached
+    `bounds` is its bounding box, with `coord in hole` read as the polygon test of the hole -/
+theorem polyContainsCoordinate_model (nw se : Pt) (v : Pt) (vs : List Pt) (holes : List (List Pt))
+    (bnd : Rat × Rat × Rat × Rat) (hb : bboxOf (v :: vs) = some bnd) (p : Pt) :
+    Src.Member.polyContainsCoordinate ringContains nw se (v :: vs) holes bnd () p =
+      .ok (polyContains (v :: vs) holes p) := by
+  obtain ⟨x0, y0, x1, y1⟩ := bnd
+  have hin : inBBox p (v :: vs) =
+      (decide (x0 ≤ p.1) && decide (p.1 ≤ x1) && decide (y0 ≤ p.2) && decide (p.2 ≤ y1)) := by
+    simp only [inBBox, hb]
+  simp only [Src.Member.polyContainsCoordinate, pointInPolygonDefault_eq, pointInPolygon_eq, polyContains]
+  rw [show ringContains (v :: vs) p = (inBBox p (v :: vs) && pointInRing p (v :: vs)) from rfl, hin]
+  generalize (holes.any fun h => ringContains h p) = H
+  generalize pointInRing p (v :: vs) = R
+  cases H <;> cases R <;> by_cases a : x0 ≤ p.1 <;> by_cases b : p.1 ≤ x1 <;> by_cases c : y0 ≤ p.2 <;>
+    by_cases d : p.2 ≤ y1 <;> simp [a, b, c, d]
 
 /-! ### the C01 ring theorems, restated for the translated source -/
 
